@@ -15,7 +15,7 @@ from vf.sim.scenario import Sim
 LEVEL = "exploration"
 RULE = ("scripts over 1-3 concurrent send_messages_await_response_complex calls (own or shared response types out of 3, timeouts 0.5/1/2 s, "
         "harness-owned accept/stop predicates keyed by bits in the message) with events {start call i (+ device replies emitted the moment the "
-        "request is received = readable in the very next loop turn), arrival(type, accept bits, stop bits), cancel call i, toggle the library's debug flag, add a passive subscriber on a response type / call its remove function (repeatedly), close(eof|garbage|force|peer DisconnectRequest; garbage and peer optionally in the same chunk as the answers before them)} "
+        "request is received = readable in the very next loop turn), arrival(type, accept bits, stop bits), cancel call i, toggle the library's debug flag, add a passive subscriber on a response type / call its remove function (repeatedly), close(eof|garbage|force|peer DisconnectRequest|the next write raising at the transport|the next send refused by the socket; garbage and peer optionally in the same chunk as the answers before them)} "
         "and gaps {same instant, same chunk as the previous arrival (one TCP segment), +1 ms, exactly at call j's timeout instant}; instant replies optionally coalesced into one chunk; seeded random scripts, all orderings of small event sets at thorough; "
         "plus the public wrappers, plus (lifecycle engine) calls outstanding on a stalled connect with disconnect() on top when the link is lost: every one ends in that instant. Oracle: per-call sequential model over the recorded arrival history (process_packet order), exact timeout "
         "instant, connection's error at close, cancellation; leftovers after every ending: predicates never invoked after the call returned, "
@@ -176,6 +176,17 @@ def run_script(script: dict[str, Any]) -> dict[str, Any]:
                         dconn.deliver_items([item], t - sim.clock)
                 elif cause == "force":
                     sim.at(t, lambda: conn.force_disconnect())
+                elif cause == "writeraise":
+                    # from now on the transport's write() raises (what uvloop does on a closed handle): the NEXT request written is the
+                    # one that closes the connection, from inside its own send
+                    def arm_write_raise() -> None:
+                        for tr in sim.transports:
+                            if tr._fake is dconn.sock:  # noqa: SLF001
+                                tr.write_raises = RuntimeError("unable to perform operation on <TCPTransport closed=True>; the handler is closed")
+                    sim.at(t, arm_write_raise)
+                elif cause == "sendfail":
+                    # the kernel refuses the next send (peer vanished): asyncio turns it into connection_lost one iteration later
+                    sim.at(t, lambda: setattr(dconn.sock, "send_fault", BrokenPipeError(32, "Broken pipe")))
 
         flush()
 
@@ -354,7 +365,7 @@ def gen_script(rng: Any, framing: str) -> dict[str, Any]:
         elif r < 0.9:
             events.append([gap, "debug", rng.random() < 0.7])
         else:
-            cause = rng.choice(["eof", "garbage", "force", "peer", "garbage", "peer"])
+            cause = rng.choice(["eof", "garbage", "force", "peer", "garbage", "peer", "writeraise", "sendfail"])
             if cause in ("garbage", "peer") and events[-1][1] == "arrive" and rng.random() < 0.6:
                 gap = "chunk"
             events.append([gap, "close", cause])
@@ -448,6 +459,18 @@ def shard(ctx: Ctx) -> None:
                 one(ctx, script, "small-permutations-sample")
     if ctx.shard == 0:
         wrappers(ctx)
+    # the request's own write fails (transport raises / kernel refuses), alone and with another call already outstanding
+    idx = 0
+    for cause in ("writeraise", "sendfail"):
+        for first in (True, False):
+            for gap in ("0", "ms"):
+                for shared in (True, False):
+                    idx += 1
+                    if not ctx.mine(idx):
+                        continue
+                    calls = [{"types": [0], "timeout": 1.0, "instant": []}, {"types": [0] if shared else [1], "timeout": 2.0, "instant": []}]
+                    ev = ([["0", "call", 0]] if first else []) + [[gap, "close", cause], [gap, "call", 1], ["ms", "arrive", 0, 3, 3], ["ms", "arrive", 1, 3, 3]]
+                    one(ctx, {"framing": "plain", "calls": calls, "events": ev}, "request-write-fails")
     # a passive subscriber on the call's response type removed once, twice, three times around the call
     idx = 0
     for ty in range(3):
